@@ -335,7 +335,7 @@ theorem liftStepR_windows (S : Schema) {doc : Node} {a b : Nat} {f t : RPos} (hf
         rw [hd] at hpt hple ⊢
         omega
     -- the left loop
-    have hLinit : LInv S doc f gs depth target (depth - target) [] 0 0 false none true :=
+    have hLinit : LiftLInv S doc f gs depth target (depth - target) [] 0 0 false none true :=
       ⟨Nat.zero_le _, fun i h1 h2 => by omega,
         .inl ⟨rfl, rfl, rfl, rfl, by rw [show target + (depth - target) = depth by omega]; omega⟩⟩
     obtain ⟨before, oS, mL, accL, okL, hsideL, _, hfinL⟩ :=
